@@ -30,6 +30,7 @@ EXPRTYPES = ['FileLocation', 'LetValue', 'LetExpr', 'QueryPart', 'AccessQuery', 
 def eval_common(g):
     g.raw('prelude_common.rs')
     g.raw('prelude_eval.rs')
+    g.type(RULES + 'errors.rs', 'Error', derive=None, opaque_payloads='ExtError')
     g.type(RULES + 'mod.rs', 'Status')
     g.type(RULES + 'values.rs', 'CmpOperator')
     g.type(RULES + 'eval_context.rs', 'FunctionName')
@@ -41,6 +42,7 @@ def eval_common(g):
     for t in EXPRTYPES:
         sub = [('indexmap::IndexSet<String>', 'IndexSetString')] if t == 'ParameterizedRule' else None
         g.type(RULES + 'exprs.rs', t, derive=None, extra_subst=sub)
+    g.type(RULES + 'eval.rs', 'EvaluationResult', derive=None)
     g.raw('spec_eval.rs')
     g.trait('EvalContext', [(RULES + 'mod.rs', 'RecordTracer'), (RULES + 'mod.rs', 'EvalContext')], 'trait_EvalContext.spec')
 
@@ -56,6 +58,11 @@ def g_eval(repo):
     g.fn(None, E, 'eval_general_block_clause', spec='eval_general_block_clause.spec', stub=True)
     for f in ('eval_when_clause', 'eval_rule_clause', 'eval_guard_clause'):
         g.fn(None, E, f, spec='clause_stub.spec', stub=True)
+    g.fn(None, E, 'unary_operation', spec='unary_operation.spec', stub=True)
+    g.fn(None, E, 'binary_operation', spec='binary_operation.spec', stub=True)
+    g.fn(None, RULES + 'eval_context.rs', 'resolve_function', spec='resolve_function.spec', stub=True)
+    g.fn('U-unary-op', RULES + 'values.rs', 'is_unary', impl=r'impl CmpOperator', spec='is_unary.spec', wrap_impl='impl CmpOperator', props=['C01', 'C03'])
+    g.fn('U-gac', E, 'eval_guard_access_clause', spec='eval_guard_access_clause.spec', props=['C01', 'C02', 'C03', 'C08'])
     g.fn('U-named', E, 'eval_guard_named_clause', spec='eval_guard_named_clause.spec', props=['C01', 'C02', 'C03', 'C08'])
     g.fn('U-when', E, 'eval_when_condition_block', spec='eval_when_condition_block.spec', props=['C01', 'C02', 'C08'])
     g.fn('U-rule', E, 'eval_rule', spec='eval_rule.spec', props=['C01', 'C02', 'C04', 'C08'])
